@@ -28,10 +28,15 @@ R = Registry(
         "slice(start, stop) composes with an existing OFFSET as offset + start on every path of sql.util._make_slice "
         "and sets LIMIT to stop - start / stop, Core and ORM slice() pass and store the values alike (R4); every "
         "renderer of the FETCH value consults both fetch options (percent, with_ties) and no call substitutes "
-        "default options (explicit fetch_clause=) where the statement may carry a FETCH (R5)."
+        "default options (explicit fetch_clause=) where the statement may carry a FETCH (R5); the ORDER BY list inside the "
+        "MSSQL ROW_NUMBER() window is the statement's COMPLETE list (no filter / de-duplication / slice / conditional append "
+        "between _order_by_clause and over(order_by=..)) and a row-number column is not added to the SELECT level of a "
+        "statement that may be DISTINCT (R3); outside the compilers every 'is this statement row-limited' predicate tests "
+        "every component the object carries, FETCH included (R6); for every compiler class _row_limit_clause -- the only "
+        "row-limit hook visit_compound_select calls -- renders a clause on every path for every LIMIT/OFFSET/FETCH presence (R7)."
     ),
     not_decided="the rows returned by a backend; the backend's own semantics of PERCENT / WITH TIES; interaction with "
-                "DISTINCT/GROUP BY; that slice() replaces (does not intersect with) an existing LIMIT.",
+                "GROUP BY (and with DISTINCT beyond the SELECT level of the row-number column); that slice() replaces (does not intersect with) an existing LIMIT.",
 )
 
 MSSQL = "dialects/mssql/base.py::MSSQLCompiler"
@@ -1434,7 +1439,7 @@ def _attr_stores(node):
              "_select_args, LIMIT and OFFSET for legacy Query), as GenerativeSelect._has_row_limiting_clause does: a FETCH "
              "statement must be treated like its LIMIT spelling (nesting for joined eager loading, ORDER BY kept, ...)")
 def r6(ctx):
-    from ._helpers_rob_e1 import expand, once_bound
+    from ._helpers_rob_e1 import cfg_guards, comp_guards, expand, once_bound
     ix = ctx.index
     n = 0
     for m in ix.all_modules():
@@ -1452,10 +1457,26 @@ def r6(ctx):
                     roots.append(x.value)
                 elif isinstance(x, ast.comprehension):
                     roots.extend(x.ifs)
+            if not any(_presence_tests(ix, f, expand(e, defs) if defs else e) for e in roots):
+                continue
+            pm = f.module.parents()
+            g = ctx.cfg(f)
             found = []
             for e in roots:
                 e2 = expand(e, defs) if defs else e
                 tests = _presence_tests(ix, f, e2)
+                if not tests:
+                    continue
+                # what was already decided on the way here counts as tested: the branch outcomes that dominate the
+                # statement (early returns, enclosing and inverted ifs) and the and/or/ternary operands around the expression
+                st = enclosing_stmt_of(pm, e)
+                around = list(cfg_guards(g, st)) if st is not None and g.nodes_for(st) else []
+                if st is not None and st is not e:
+                    around += [gd for gd in comp_guards(pm, e)]
+                for t, _pol in around:
+                    if t is e:
+                        continue
+                    tests = tests + _presence_tests(ix, f, expand(t, defs) if defs else t)
                 by_recv = {}
                 for role, recv, avail in tests:
                     by_recv.setdefault(recv, (set(), avail))[0].add(role)
@@ -1485,13 +1506,25 @@ R7_CASES["fetch+offset"] = dict(limit=None, offset=O, fetch=F)
 SELECT_ONLY_HOOKS = ("translate_select_structure", "get_select_precolumns")
 
 
-def _row_limit_empty_paths(ctx, cls, rl, case, depth=0):
+def _row_limit_empty_paths(ctx, cls, rl, case, depth=0, flags=None):
     """Does `rl` (a _row_limit_clause implementation, executed as a method of `cls`) have a path that renders NOTHING for
     the given limit/offset/fetch presence?  Delegations are followed: self.limit_clause -> the class's own limit_clause,
     super()._row_limit_clause -> the next implementation in the MRO, fetch_clause renders (checked by R2).
     -> (True|False, description of the empty path)"""
     ix = ctx.index
-    attr, call0 = _hooks(case)
+    # capability flags of the dialect (`self.dialect.<flag>`) are facts of one server: the same value at every read of a
+    # path.  Every combination is tried (the symbolic executor would otherwise fork anew at each read).
+    if flags is None:
+        names = sorted({x.attr for x in ast.walk(_nf(ctx, rl).node) if isinstance(x, ast.Attribute)
+                        and isinstance(x.value, ast.Attribute) and x.value.attr == "dialect"
+                        and isinstance(x.value.value, ast.Name) and x.value.value.id == "self"})[:4]
+        import itertools
+        for combo in itertools.product((True, False), repeat=len(names)):
+            e, why = _row_limit_empty_paths(ctx, cls, rl, case, depth, dict(zip(names, combo)))
+            if e:
+                return e, why + (f" with {dict(zip(names, combo))}" if names else "")
+        return False, None
+    attr, call0 = _hooks(case, force=flags)
 
     def call(n, env, sx, events):
         # the statement IS a compound select here: isinstance(stmt, <..CompoundSelect..>) holds, isinstance(stmt, <..Select>) not
@@ -1529,7 +1562,7 @@ def _row_limit_empty_paths(ctx, cls, rl, case, depth=0):
                         break
             if nxt is None:
                 raise Unsupported(f"{rl.key}: super()._row_limit_clause not resolved")
-            e, why = _row_limit_empty_paths(ctx, cls, nxt, case, depth + 1)
+            e, why = _row_limit_empty_paths(ctx, cls, nxt, case, depth + 1, flags)
             if e:
                 return True, f"{rl.qualname} -> {why}"
             rest = rest.replace("‹super._row_limit_clause›", "x")
@@ -1817,6 +1850,9 @@ R.mutant('benign-oracle-max-row-ternary', OR,
              '                        else limit_clause + offset_clause\n                    )\n\n'), None)
 
 # ---- str2-g: R6 (row-limiting predicates), R7 (compound selects), R3 `:distinct`
+# NB the two `benign-*-fix-*` entries patch code that violates on the unchanged tree (KNOWN defects, see notes/str2-g.md): the
+# self-test filters baseline keys, so they only show that the fixed shape is understood (no exit 2); that the rules go
+# silent on the fixes was checked against a fixed scratch worktree (SQLASTATIC_ROOT).
 SEL = "sql/selectable.py"
 _HAS_RL = ('            self._limit_clause is not None\n            or self._offset_clause is not None\n'
            '            or self._fetch_clause is not None\n')
